@@ -15,6 +15,16 @@
   `c01_finish_responder` / `c01_finish_initiator` / `c01_dhkey_step`: after the finishing step the
   conversation reports exactly the verified key, the verified in-range DH value as the peer's
   current key, the signed key id, and `ssid = hash2(0x00 ‖ mpi(s))[0:8]` for s = theirPub^ourSecret.
+  Role flag (`sentRevealSig`, which half of the session id is highlighted; repaired code):
+  `c01_role_kept_while_encrypted` / `c01_role_kept_processAKE` / `c01_role_pending_processAKE`: a key
+  exchange started on an encrypted conversation and not (yet) finished leaves `sentRevealSig` and
+  `ssid` of the established session exactly as they were — the DH-Key step only records the pending
+  role in the AKE context (`ake.sentRevealSig = true`); `c01_paths` lists a change of the flag among
+  the effects only a finishing step can have. `c01_role_on_finish`: `akeHasFinished` commits the
+  pending pair (`ake.sentRevealSig`, `ake.ssid`) on a refresh and keeps the conversation's own pair
+  otherwise; `c01_finish_responder` gives `sentRevealSig = false` for the side that received the
+  Reveal-Signature message, `c01_finish_initiator` / `c01_dhkey_step` give `true` for the side that
+  sent it.
   Ideal-crypto part (a valid DSA signature under an honest key was made by its owner, in this
   exchange because M_B binds both DH values; the commitment binds g^x) is the standard assumption, not
   a theorem: the `ake` profile's Go oracle places an active attacker between live conversations
@@ -59,5 +69,13 @@ theorem c01_dhkey_step : type_of% @Otr.c01_dhkey_step := @Otr.c01_dhkey_step
 theorem c01_processAKE_sig : type_of% @Otr.c01_processAKE_sig := @Otr.c01_processAKE_sig
 
 theorem c01_processAKE_revealSig : type_of% @Otr.c01_processAKE_revealSig := @Otr.c01_processAKE_revealSig
+
+theorem c01_role_kept_while_encrypted : type_of% @Otr.c01_role_kept_while_encrypted := @Otr.c01_role_kept_while_encrypted
+
+theorem c01_role_kept_processAKE : type_of% @Otr.c01_role_kept_processAKE := @Otr.c01_role_kept_processAKE
+
+theorem c01_role_pending_processAKE : type_of% @Otr.c01_role_pending_processAKE := @Otr.c01_role_pending_processAKE
+
+theorem c01_role_on_finish : type_of% @Otr.c01_role_on_finish := @Otr.c01_role_on_finish
 
 end Otr.C01
